@@ -910,6 +910,13 @@ def judge(res: Result, item: dict, expect: Expect, case: Any, captured: dict, wi
         if reason is None and wire.transport == "asgi" and p.location == "header" and wire.header(p.name) is None and \
                 any(k.lower() == p.name.lower() for k, _ in wire.headers):
             reason = "non_ascii_header_on_asgi_client"
+        if reason == "empty_array_vs_empty_string_vs_absent" and p.location == "query" and not p.json_content and (
+                p.cf == "multi" if p.spec == "2.0" else S.effective("query", p.style, p.explode) == ("form", True)):
+            # one pair per item: no item, no pair.  `p=` is the one-item array [""], which the empty array is not
+            mine = [v for k, v in S.split_query(wire.raw_query) if S._safe(S.form_decode, k) == p.name]
+            res.count("compared:empty_exploded_query_array")
+            if mine:
+                violation({"kind": "empty_exploded_array_sent_as_items", **p.facts()}, {"expected": expected, "raw_query": wire.raw_query})
         if reason is not None:
             res.count("trivial:" + reason)
             if p.location == "cookie":
